@@ -92,7 +92,11 @@ class PdoModel:
         self.period = None
         self.running = None       # period of the live task
         self.fresh = False        # no update() since the task was started
-        self.subscribed = spec["setup"] == "from_od" or bool(spec.get("sub"))
+        # "en": is the map marked valid/enabled?  True (default when the key is missing), False, or "default"
+        # (set up by hand, attribute never touched).  Only a map marked enabled registers for reception;
+        # start / stop / data updates do not depend on it (the property names no such condition).
+        self.enabled = spec.get("en", True) is True
+        self.subscribed = (spec["setup"] == "from_od" or bool(spec.get("sub"))) and self.enabled
         self.last_ts = None
 
     def write(self, k, v):
@@ -254,6 +258,8 @@ class Model:
             return
         if m.running is not None:
             v.flags.add("R")
+        if not m.enabled:
+            v.flags.add("N")
         m.period = p
         m.running = p
         m.fresh = True
@@ -268,6 +274,16 @@ class Model:
             if nid == op["node"] and (side == op["side"] or
                                       (op.get("which") == "pdo" and side.upper() == op["side"])):
                 m.running = None
+
+    def _pdo_enabled(self, op, v):
+        """PdoMap.enabled = x while the map is stopped.  The attribute takes no part in start / stop / update;
+        what it means for reception is not stated, so reception is no longer generated for this map."""
+        m = self._map(op)
+        if m.running is not None:
+            v.excluded = "PdoMap.enabled assigned while transmitting: effect on the running task is not stated"
+            return
+        m.enabled = bool(op["v"])
+        m.subscribed = False
 
     def _pdo_period(self, op, v):
         m = self._map(op)
@@ -447,6 +463,8 @@ class Model:
                 m.running = None
         if live:
             v.flags.add("D")
+        if op.get("route", "call") != "call":
+            v.flags.add("X")      # left through the context manager protocol of Network
         # the property promises nothing about the other producers of that network
         if self.sync[net]["running"] is not None:
             self.sync[net]["optional"] = True
